@@ -90,7 +90,7 @@ def probe(feats, guard, lane, ref):
         if ("KEM", k) not in d:
             raise Violation("transcript", feats, guard, cmd + " && run", f"a transcript for enabled KEM {k}", out)
         if ref is not None and d[("KEM", k)] != ref[("KEM", k)]:
-            words = "; ".join(l for l in out.splitlines() if l.split(" ")[0] in ("WIPE", "ZERO-X", "EXPORT-ONLY") and f" {k} " in l)
+            words = "; ".join(l for l in out.splitlines() if l.split(" ")[0] in ("WIPE", "ZERO-X", "EXPORT-ONLY", "RNG-STREAM", "NEG", "NEG-ALLOC") and f" {k} " in l)
             raise Violation("transcript", feats, guard, cmd + " && run", f"KEM {k} digest {ref[('KEM', k)]} (as under the full feature set, guard on)", d[("KEM", k)] + " | readable parts of this transcript: " + words)
         if has_alloc:
             if ("KEM-ALLOC", k) not in d:
